@@ -513,6 +513,28 @@ ADDENDA3 = {
 for _p, _t in ADDENDA3.items():
     CLAIMS[_p]['text'] = CLAIMS[_p]['text'].rstrip() + _t
 
+ADDENDA4 = {
+    'C01': ' Round 4: MAC inputs (sequence number and whole packet; UMAC nonce and wrapper update over 11 lengths); stream readers raise the stored exception only with an empty buffer.',
+    'C02': ' Round 4: MAC inputs (shared with C01.R9); USERAUTH_SUCCESS sent before _auth_complete is set.',
+    'C03': ' Round 4: every kex handler table row checks end of packet (MRO-resolved); host key trust tables (shared C04.R1); the listener\'s shared host key pair is not mutated.',
+    'C04': ' Round 4: key equality covers every encoded public field; wildcard patterns match the whole name (witnesses through fnmatch / re); [host]:port revocations survive the port-less fallback; certificate for a revoked subject key refused.',
+    'C05': ' Round 4: touch requirement waived only by every source; stored password spent only on a password prompt; a new USERAUTH_REQUEST abandons the auth in progress synchronously; trust sets replaced per lookup.',
+    'C07': ' Round 4: _accept_data table over send states; incremental codecs for redirected streams; single feeder per redirected source; receive buffer slots never rebound.',
+    'C09': ' Round 4: keepalive counter (increment, limit, no reset on the timer path, cleared only past an await).',
+    'C10': ' Round 4: byte-count parser handlers always move the parser on; copy-data loop re-entered only after a non-empty read.',
+    'C11': ' Round 4: host key validated from the key data of each exchange; KEXINIT sent with _kex_complete already cleared.',
+    'C12': ' Round 4: copy loop progress; _end() from a fresh stat on every path.',
+    'C13': ' Round 4: nothing joined onto a path after map_path.',
+    'C14': ' Round 4: handler containers mutated through self are bound in a constructor.',
+    'C15': ' Round 4: decoded SSH fields returned as read; encryption decided by `passphrase is None`.',
+    'C16': ' Round 4: allowed-signers plain and cert-authority lines kept apart (evaluated).',
+    'C17': ' Round 4: _parse_options on tab / blank witness lines; wildcard witnesses evaluated through the stored pattern; port fallback table.',
+    'C18': ' Round 4: Include read argument by argument; pattern-list semantics of Host / Match (shared C17.R1).',
+    'C20': ' Round 4: accept_handler verdict awaited when awaitable and refusal raises; channel EOF ordering (shared C07.R2).',
+}
+for _p, _t in ADDENDA4.items():
+    CLAIMS[_p]['text'] = CLAIMS[_p]['text'].rstrip() + _t
+
 PENDING = 'check not built yet in this session (planned, see DESIGN.md section 5)'
 
 NOT_APPLICABLE = {
